@@ -144,8 +144,8 @@ pub fn spec() -> PropSpec {
             Family { name: "multi", f: fam_multi, weight: 10 },
             Family { name: "stream-limit", f: fam_stream_limit, weight: 10 },
         ],
-        quick_worlds: 100_000,
-        thorough_worlds: 1_500_000,
+        quick_worlds: 200_000,
+        thorough_worlds: 3_000_000,
         panic_is_violation: true,
         rule: "each world = one seeded execution of event-driven workloads (idle timeout and keep-alive off unless drawn) under a fair-loss fault phase followed by a clean phase, or under directed loss of chosen datagrams; non-trivial = a fault fired or >1 connection; distinct = distinct abstract-event signature",
         assumptions: vec![
